@@ -186,6 +186,15 @@ func (c *Ctx) Fail(key, detail string) {
 	}
 }
 
+// FailT is Fail plus the source of a plain go test that replays the case through the public API only.
+func (c *Ctx) FailT(key, detail string, test func() string) {
+	n := len(c.Fails)
+	c.Fail(key, detail)
+	if len(c.Fails) > n && test != nil {
+		c.Fails[len(c.Fails)-1].GoTest = test()
+	}
+}
+
 // U64Set is a capped open-addressing set of 64-bit hashes.
 type U64Set struct {
 	tab  []uint64
